@@ -180,7 +180,7 @@ def verify_unit(repo, reg, qualname, timeout_ms=10000):
                     cid = "raises-iff:" + ecls
                     obl.append(Obligation(qualname, cid, list(q.pc), z3.Not(cond), "raises-complete",
                                           is_prop(cid), dict(path=k, text="normal exit implies not (%s)" % c.raises[ecls][0])))
-                frame_obligations(ex, c, p0, q, qualname, k, obl, is_prop)
+                frame_obligations(ex, c, p0, q, qualname, k, obl, is_prop, pre.env)
             elif o.kind == "raise":
                 exc = o.value
                 conds = [cond for ecls, cond in raise_conds.items()
@@ -229,7 +229,7 @@ def class_invariants(reg, repo, fi, c):
     return out
 
 
-def frame_obligations(ex, c, p0, q, unit, k, obl, is_prop):
+def frame_obligations(ex, c, p0, q, unit, k, obl, is_prop, env=None):
     """Everything outside `modifies` is unchanged on normal exit."""
     for comp, t0 in p0.sigma.items():
         if comp in c.modifies or "sigma.*" in c.modifies:
@@ -243,6 +243,7 @@ def frame_obligations(ex, c, p0, q, unit, k, obl, is_prop):
     for fld, t1 in q.heap.items():
         if ("heap." + fld) in c.modifies:
             continue
+        ats = [m.split("@")[1] for m in c.modifies if m.startswith("heap.%s@" % fld)]
         t0 = p0.heap.get(fld)
         if t0 is None:
             t0 = z3.Const("heap0_" + fld, t1.sort())
@@ -251,7 +252,8 @@ def frame_obligations(ex, c, p0, q, unit, k, obl, is_prop):
         # fields of objects allocated during the call are not part of the frame
         j = V.fresh("o", IntS)
         cid = "frame:heap." + fld
-        obl.append(Obligation(unit, cid, list(q.pc), z3.ForAll([j], z3.Implies(j < z3.Int("alloc0"), t1[j] == t0[j])),
+        excl = [j != env[a].t for a in ats]
+        obl.append(Obligation(unit, cid, list(q.pc), z3.ForAll([j], z3.Implies(z3.And(j < z3.Int("alloc0"), *excl), t1[j] == t0[j])),
                               "frame", True, dict(path=k, text="field %s of pre-existing objects unchanged" % fld)))
 
 
